@@ -502,6 +502,10 @@ impl RealPrim for Cn {
             "asin" => x.asin(),
             "atan" => x.atan(),
             "atan2" => x.atan2(args[1].f()),
+            "exp" => x.exp(), "exp2" => x.exp2(), "ln" => x.ln(), "log2" => x.log2(), "log10" => x.log10(), "cbrt" => x.cbrt(),
+            "exp_m1" => x.exp_m1(), "ln_1p" => x.ln_1p(), "sinh" => x.sinh(), "cosh" => x.cosh(), "tanh" => x.tanh(),
+            "asinh" => x.asinh(), "acosh" => x.acosh(), "atanh" => x.atanh(),
+            "powf" => x.powf(args[1].f()), "log" => x.log(args[1].f()),
             _ => panic!("Cn::fun {}", name),
         })
     }
@@ -724,14 +728,14 @@ macro_rules! impl_realish {
                 for _ in 0..n.abs() { r = r * self; }
                 if n < 0 { <$T as RealPrim>::c(1, 1) / r } else { r }
             }
-            fn powf(self, _: $T) -> $T { panic!("symx: powf") }
+            fn powf(self, o: $T) -> $T { <$T as RealPrim>::fun("powf", &[self, o]) }
             fn sqrt(self) -> $T { <$T as RealPrim>::fun("sqrt", &[self]) }
-            fn exp(self) -> $T { panic!("symx: exp") }
-            fn exp2(self) -> $T { panic!("symx: exp2") }
-            fn ln(self) -> $T { panic!("symx: ln") }
-            fn log(self, _: $T) -> $T { panic!("symx: log") }
-            fn log2(self) -> $T { panic!("symx: log2") }
-            fn log10(self) -> $T { panic!("symx: log10") }
+            fn exp(self) -> $T { <$T as RealPrim>::fun("exp", &[self]) }
+            fn exp2(self) -> $T { <$T as RealPrim>::fun("exp2", &[self]) }
+            fn ln(self) -> $T { <$T as RealPrim>::fun("ln", &[self]) }
+            fn log(self, o: $T) -> $T { <$T as RealPrim>::fun("log", &[self, o]) }
+            fn log2(self) -> $T { <$T as RealPrim>::fun("log2", &[self]) }
+            fn log10(self) -> $T { <$T as RealPrim>::fun("log10", &[self]) }
             fn max(self, o: $T) -> $T {
                 if let Some(r) = <$T as RealPrim>::ite_lt(self, o, o, self) { return r; }
                 if self >= o { self } else { o }
@@ -741,7 +745,7 @@ macro_rules! impl_realish {
                 if self <= o { self } else { o }
             }
             fn abs_sub(self, o: $T) -> $T { if self <= o { <$T as RealPrim>::c(0, 1) } else { self - o } }
-            fn cbrt(self) -> $T { panic!("symx: cbrt") }
+            fn cbrt(self) -> $T { <$T as RealPrim>::fun("cbrt", &[self]) }
             fn hypot(self, o: $T) -> $T { Float::sqrt(self * self + o * o) }
             fn sin(self) -> $T { <$T as RealPrim>::fun("sin", &[self]) }
             fn cos(self) -> $T { <$T as RealPrim>::fun("cos", &[self]) }
@@ -751,14 +755,14 @@ macro_rules! impl_realish {
             fn atan(self) -> $T { <$T as RealPrim>::fun("atan", &[self]) }
             fn atan2(self, o: $T) -> $T { <$T as RealPrim>::fun("atan2", &[self, o]) }
             fn sin_cos(self) -> ($T, $T) { (Float::sin(self), Float::cos(self)) }
-            fn exp_m1(self) -> $T { panic!("symx: exp_m1") }
-            fn ln_1p(self) -> $T { panic!("symx: ln_1p") }
-            fn sinh(self) -> $T { panic!("symx: sinh") }
-            fn cosh(self) -> $T { panic!("symx: cosh") }
-            fn tanh(self) -> $T { panic!("symx: tanh") }
-            fn asinh(self) -> $T { panic!("symx: asinh") }
-            fn acosh(self) -> $T { panic!("symx: acosh") }
-            fn atanh(self) -> $T { panic!("symx: atanh") }
+            fn exp_m1(self) -> $T { <$T as RealPrim>::fun("exp_m1", &[self]) }
+            fn ln_1p(self) -> $T { <$T as RealPrim>::fun("ln_1p", &[self]) }
+            fn sinh(self) -> $T { <$T as RealPrim>::fun("sinh", &[self]) }
+            fn cosh(self) -> $T { <$T as RealPrim>::fun("cosh", &[self]) }
+            fn tanh(self) -> $T { <$T as RealPrim>::fun("tanh", &[self]) }
+            fn asinh(self) -> $T { <$T as RealPrim>::fun("asinh", &[self]) }
+            fn acosh(self) -> $T { <$T as RealPrim>::fun("acosh", &[self]) }
+            fn atanh(self) -> $T { <$T as RealPrim>::fun("atanh", &[self]) }
             fn integer_decode(self) -> (u64, i16, i8) { panic!("symx: integer_decode") }
             fn to_degrees(self) -> $T { self * <$T as RealPrim>::c(180, 1) / <$T as FloatConst>::PI() }
             fn to_radians(self) -> $T { self * <$T as FloatConst>::PI() / <$T as RealPrim>::c(180, 1) }
